@@ -120,6 +120,13 @@ def main():
             "caught_by": sorted(caught),
             "source": "independent sub-agent given only the property text and a scratch worktree",
         }
+        prev_file = out_dir / "meta.json"
+        if prev_file.exists():
+            # a re-run keeps the hand-written annotations
+            prev = json.loads(prev_file.read_text())
+            for k in ("what", "needs_to_manifest", "history"):
+                if not meta.get(k) and prev.get(k):
+                    meta[k] = prev[k]
         (out_dir / "meta.json").write_text(json.dumps(meta, indent=1) + "\n")
         return 0 if caught else 1
     finally:
